@@ -544,6 +544,34 @@ func c01ViewSweep(c *core.Ctx, spec viewSpec, k int) {
 			}
 		}
 	}
+	// NDP messages: every option type of the decoder x every length byte x option areas of several sizes (a length
+	// field of 32 or more exceeds a byte once multiplied by 8), exact capacity and spare capacity
+	if hdr := map[string]int{"ICMP6RouterAdvertisement": 16, "ICMP6RouterSolicitation": 8}[spec.name]; hdr != 0 {
+		for _, typ := range []byte{0, 1, 2, 3, 5, 14, 24, 25, 31, 255} {
+			for lb := 0; lb < 256; lb++ {
+				for _, area := range []int{2, 8, 16, 24, 40, 264, 272, 520} {
+					for _, fill := range []byte{0x00, 0xff} {
+						whole := make([]byte, hdr+area+32)
+						for i := range whole {
+							whole[i] = fill
+						}
+						view := whole[16 : 16+hdr+area : 16+hdr+area]
+						if fill == 0xff {
+							view = whole[16 : 16+hdr+area]
+						}
+						copy(view, base[:hdr])
+						view[hdr], view[hdr+1] = typ, byte(lb)
+						c.Count("evaluations", 1)
+						c.Count("view_instances", 1)
+						if viewGetters(c, spec, whole, view, false) {
+							c.Count("view_valid", 1)
+							c.Distinct(append([]byte(spec.name), view[:hdr+2]...))
+						}
+					}
+				}
+			}
+		}
+	}
 	for n := 0; n <= len(base); n++ {
 		whole := make([]byte, n+32)
 		view := whole[16 : 16+n : 16+n]
